@@ -298,6 +298,7 @@ type Machine struct {
 	inputs   []inputRec
 	labelCnt map[string]int
 	globals  map[*ssa.Global]*Value
+	inited   map[*ssa.Package]bool
 	locks    map[*Value]*lockState
 	lockSeq  []string
 	depth    int
